@@ -80,7 +80,7 @@ PROPS["C20"] = {
 PROPS["C15"] = {
     "skeleton_fns": MIDDLEWARE,
     "lean_modules": ["GoSup.Props.C15"],
-    "theorems": [],
+    "theorems": ["GoSup.Props.C15.c15_refines", "GoSup.Props.C15.c15_spec_total", "GoSup.Props.C15.c15_nothing_after_consumed"],
     "ties": [],
     "legs": [{"name": "middleware", "cmd": "middleware"}],
     "rule": "programs: committed corpus, ALL chains of <=2 (quick) / <=3 (thorough) handlers with <=2 actions over the core alphabet "
